@@ -17,10 +17,16 @@ func init() {
 		Text:      "Decides: (1) Path.Decode reads zone-less names in time.Local, so every Start given to Path.Encode must be in time.Local (or Encode must normalise): each origin leaf of each of the three Encode sites (fMP4 recorder, MPEG-TS recorder, API delete) is classified local (time.Now/time.Unix/.Local()/In(time.Local)), zero, parsed (time.Parse: location taken from the text), nonlocal (.UTC()/In(other)) or unknown; anything but local/zero is a violation naming site and leaf; (2) the API delete handler removes exactly one file, whose name is Encode(format) with format built like the recorder's and FindSegments' (PathAddExtension(ReplaceAll(recordPath, \"%path\", name), recordFormat)) from the configuration found for the same name, only after the instant parsed and the path resolved; (3) the list endpoints report the Start decoded by FindSegments (location changes allowed, no rounding). Not decided: that package time maps instants to wall clocks correctly; DST ambiguity of zone-less names.",
 		Note:      "trusted: go/ssa; third-party time sources are classified by a table established by reading (gortsplib ntp.Decode = time.Unix: local; gohlslib Client.AbsoluteTime = time.Parse of EXT-X-PROGRAM-DATE-TIME: parsed); struct-field flow is flow-insensitive over all stores of the field in the module"})
 	addMutants(
-		Mutant{"C31", "delete-start-utc", "internal/api/api_recordings.go",
-			"		Start: start,\n", "		Start: start.UTC(),\n", "C31.start_normalised.nonlocal"},
-		Mutant{"C31", "estimator-utc", "internal/ntpestimator/estimator.go",
-			"	now = now.Round(0)\n", "	now = now.Round(0).UTC()\n", "C31.start_normalised.nonlocal"},
+		// Encode no longer normalises: the parsed / playlist-located origins are reported again
+		Mutant{"C31", "encode-keeps-start-location", "internal/recordstore/path.go",
+			"	if !strings.Contains(format, \"%z\") {\n		p.Start = p.Start.Local()\n	}\n", "", "C31.start_normalised.parsed"},
+		// normalisation applied after the first component was already taken
+		Mutant{"C31", "encode-normalises-too-late", "internal/recordstore/path.go",
+			"	if !strings.Contains(format, \"%z\") {\n		p.Start = p.Start.Local()\n	}\n\n	format = strings.ReplaceAll(format, \"%path\", p.Path)\n	format = strings.ReplaceAll(format, \"%Y\", strconv.FormatInt(int64(p.Start.Year()), 10))\n",
+			"	format = strings.ReplaceAll(format, \"%path\", p.Path)\n	format = strings.ReplaceAll(format, \"%Y\", strconv.FormatInt(int64(p.Start.Year()), 10))\n	if !strings.Contains(format, \"%z\") {\n		p.Start = p.Start.Local()\n	}\n", "C31.start_normalised.parsed"},
+		// normalisation only for formats that DO carry a zone
+		Mutant{"C31", "encode-normalises-wrong-branch", "internal/recordstore/path.go",
+			"	if !strings.Contains(format, \"%z\") {\n		p.Start = p.Start.Local()", "	if strings.Contains(format, \"%z\") {\n		p.Start = p.Start.Local()", "C31.start_normalised.parsed"},
 		Mutant{"C31", "delete-format-uses-conf-name", "internal/api/api_recordings.go",
 			"		strings.ReplaceAll(pathConf.RecordPath, \"%path\", pathName),\n		pathConf.RecordFormat,\n	)\n\n	pathFormat, err = absolutePathInside",
 			"		strings.ReplaceAll(pathConf.RecordPath, \"%path\", pathConf.Name),\n		pathConf.RecordFormat,\n	)\n\n	pathFormat, err = absolutePathInside", "C31.format_siblings"},
@@ -106,6 +112,54 @@ func runC31(c *Ctx) {
 	if nComp == 0 {
 		c.Undecided("UNRESOLVED ANCHOR Path.Encode: no time component calls found")
 	}
+	if !encNormalises {
+		// accepted idiom: `if !strings.Contains(format, "%z") { p.Start = p.Start.Local() }`
+		// before any component is taken: every path to a component call either
+		// carries the "%z present" literal (the name then states its own zone,
+		// which Decode honours) or executes the store of Start.Local() first.
+		isLocalStore := func(i ssa.Instruction) bool {
+			st, ok := i.(*ssa.Store)
+			if !ok {
+				return false
+			}
+			fa, ok := st.Addr.(*ssa.FieldAddr)
+			if !ok || !fieldAddrIs(fa, "recordstore.Path", "Start") {
+				return false
+			}
+			cl, ok := st.Val.(*ssa.Call)
+			return ok && calleeName(&cl.Call) == "(time.Time).Local"
+		}
+		isComp := func(i ssa.Instruction) bool {
+			cl, ok := i.(*ssa.Call)
+			if !ok || cl.Call.IsInvoke() || len(cl.Call.Args) == 0 {
+				return false
+			}
+			n := calleeName(&cl.Call)
+			if !(strings.HasPrefix(n, "(time.Time).") || n == "recordstore.timeLocationEncode") {
+				return false
+			}
+			return n != "(time.Time).Local" && n != "(time.Time).In" && n != "(time.Time).Unix"
+		}
+		if countTargets(enc, isLocalStore) > 0 {
+			w := (&Walker{
+				Visit: func(i ssa.Instruction) int {
+					if isLocalStore(i) {
+						return wStop
+					}
+					if isComp(i) {
+						return wHit
+					}
+					return wContinue
+				},
+				Edge: func(l Lit) bool { return !(l.Pos && l.Atom == `strings.Contains($1, "%z")`) },
+			}).Run(entry(enc))
+			if w == nil {
+				encNormalises = true
+			}
+		}
+	}
+	c.Check("C31.encode_normalises", "recordstore.Path.Encode: zone-less names are written from Start.Local() (or every caller passes a local Start, checked per site)", true, p.Pos(enc.Pos()),
+		map[bool]string{true: "Encode normalises by itself", false: "Encode uses Start's own location: call sites are checked"}[encNormalises])
 
 	tr := newTimeTracer(p, c31ThirdParty)
 	sites, esc := callSitesOf(p, enc)
